@@ -5,6 +5,7 @@ import Q1t.Proofs.C18Witness
 import Q1t.Proofs.ExportNoPanicOQBridge
 import Q1t.Proofs.ExportNoPanicCQBridge
 import Q1t.Proofs.ExportNoPanicLatex
+import Q1t.Proofs.DetShapeAll
 /-!
 # C18 — invalid requests yield errors, never panics or silently wrong runs
 
@@ -253,6 +254,36 @@ theorem reps_same_constructor_partial {α : Type} [CommRing α] [Amp α Empty] [
   · obtain ⟨s, c, h, _⟩ := no_panic_stabilizer_partial half nq nc calls shots hD hwf hstab _ _ (Or.inl rfl) (by simp)
       ds rs ds' hs
     exact ⟨_, h⟩
+
+/-- **no_panic_stabilizer, no hypothesis left**: `DetShapeHolds` is proved by C03 (`Q1t.Props.C03.det_shape_holds`,
+`Proofs/DetShapeAll.lean`). -/
+theorem no_panic_stabilizer_unconditional {W : Type} (half : W) (nq nc : Nat) (calls : List (Call Empty)) (shots : Nat)
+    (hwf : ExecWF (runCalls (Circ.new nq nc) calls).1 shots = true)
+    (hstab : Conj.isStabilizerCircuit (runCalls (Circ.new nq nc) calls).1.ops = true)
+    (s0 : StabState) (c0 : List Nat) (hs0 : s0 = StabState.new nq shots ∨ StabInv nq shots s0) (hc0 : c0.length = shots)
+    (ds : List Prog.Draw) (r : Except Fail (StabState × List Nat)) (ds' : List Prog.Draw)
+    (hrun : Prog.runOracle (execOps (stabBackend (α := W) half Gen.phaseTable
+      (Q1t.Proofs.TabG.conjOfT (A := Empty) Gen.conjTable Gen.conjNoArityCheck)) s0 c0
+      (runCalls (Circ.new nq nc) calls).1.ops) ds = some (r, ds')) :
+    ∃ s c, r = .ok (s, c) ∧ StabInv nq shots s ∧ c.length = shots :=
+  no_panic_stabilizer_partial half nq nc calls shots (Q1t.Proofs.DetPlan.detShapeHolds_generated nq) hwf hstab s0 c0
+    hs0 hc0 ds r ds' hrun
+
+/-- **both representations return the same constructor, no hypothesis left** (see `reps_same_constructor_partial`). -/
+theorem reps_same_constructor_unconditional {α : Type} [CommRing α] [Amp α Empty] [SimAmp α] (hα : LawfulAmp α Empty)
+    {W : Type} (half : W) (nq nc : Nat) (calls : List (Call Empty)) (shots : Nat)
+    (hwf : ExecWF (runCalls (Circ.new nq nc) calls).1 shots = true)
+    (hstab : Conj.isStabilizerCircuit (runCalls (Circ.new nq nc) calls).1.ops = true)
+    (dv ds : List Prog.Draw) (rv : Except Fail (VecState α × List Nat)) (rs : Except Fail (StabState × List Nat))
+    (dv' ds' : List Prog.Draw)
+    (hv : Prog.runOracle (execOps (vecBackend (α := α) (P := Empty)) (VecState.new nq shots)
+      (List.replicate shots 0) (runCalls (Circ.new nq nc) calls).1.ops) dv = some (rv, dv'))
+    (hs : Prog.runOracle (execOps (stabBackend (α := W) half Gen.phaseTable
+      (Q1t.Proofs.TabG.conjOfT (A := Empty) Gen.conjTable Gen.conjNoArityCheck)) (StabState.new nq shots)
+      (List.replicate shots 0) (runCalls (Circ.new nq nc) calls).1.ops) ds = some (rs, ds')) :
+    ((∃ x, rv = .ok x) ∨ rv = .error (.panic "WeightedIndex::new(..).unwrap()")) ∧ (∃ y, rs = .ok y) :=
+  reps_same_constructor_partial hα half nq nc calls shots (Q1t.Proofs.DetPlan.detShapeHolds_generated nq) hwf hstab
+    dv ds rv rs dv' ds' hv hs
 
 /-! ## the exporters
 
